@@ -1,6 +1,7 @@
 package main
 
 import (
+	"bufio"
 	"bytes"
 	"encoding/hex"
 	"encoding/json"
@@ -66,8 +67,32 @@ type c09BinEntry struct {
 	f          func(b []byte, chunk int) c09Result
 }
 
+// c09Reader: chunk >= 0 selects the counting reader (a type the library cannot
+// know); negative values hand the library the concrete standard readers, whose
+// types a decoder might special-case: -1 *bytes.Reader, -2 *bytes.Buffer,
+// -3 *bufio.Reader, -4 *strings.Reader. For those, "delivered" is what is
+// missing from the reader afterwards.
 func c09Reader(f func(r io.Reader) (int64, error)) func(b []byte, chunk int) c09Result {
 	return func(b []byte, chunk int) c09Result {
+		switch chunk {
+		case -1:
+			r := bytes.NewReader(b)
+			n, err := f(r)
+			return c09Result{n, int64(len(b) - r.Len()), err}
+		case -2:
+			r := bytes.NewBuffer(append([]byte{}, b...))
+			n, err := f(r)
+			return c09Result{n, int64(len(b) - r.Len()), err}
+		case -3:
+			under := bytes.NewReader(b)
+			r := bufio.NewReaderSize(under, 16)
+			n, err := f(r)
+			return c09Result{n, int64(len(b) - under.Len() - r.Buffered()), err}
+		case -4:
+			r := strings.NewReader(string(b))
+			n, err := f(r)
+			return c09Result{n, int64(len(b) - r.Len()), err}
+		}
 		r := &c09Counting{r: bytes.NewReader(b), chunk: chunk}
 		n, err := f(r)
 		return c09Result{n, r.n, err}
@@ -698,7 +723,7 @@ func init() {
 			ncorp = 300
 		}
 		corpus := c09Corpus(c.Seed, ncorp)
-		chunks := []int{0, 1, 3}
+		chunks := []int{0, 1, 3, -1, -2, -3, -4}
 
 		// feed sends b to one entry point unless its claims exceed the cap
 		feed := func(e *c09BinEntry, b []byte, class string, chunk int, claim uint64, cap uint64) {
@@ -712,7 +737,7 @@ func init() {
 		feedKind := func(kind string, b []byte, class string, n uint64, claim uint64) {
 			for i := range c09BinEntries {
 				if e := &c09BinEntries[i]; e.kind == kind {
-					feed(e, b, class, chunks[(n+uint64(i))%3], claim, genericCap)
+					feed(e, b, class, chunks[(n+uint64(i))%uint64(len(chunks))], claim, genericCap)
 				}
 			}
 		}
@@ -934,7 +959,7 @@ func init() {
 				b = append(append([]byte{}, x[:r.Intn(len(x)+1)]...), y[r.Intn(len(y)+1):]...)
 			}
 			for j := range c09BinEntries {
-				feed(&c09BinEntries[j], b, "random", chunks[(i+j)%3], 0, genericCap)
+				feed(&c09BinEntries[j], b, "random", chunks[(i+j)%len(chunks)], 0, genericCap)
 			}
 		}
 
